@@ -20,6 +20,73 @@ use std::sync::Mutex;
 
 static LAST_PANIC: Mutex<Option<String>> = Mutex::new(None);
 
+/// Memory budget of a run (part of H2's purpose: arbitrary generated programs must end without
+/// exhausting the machine).  The harness's allocator counts live bytes; when a run grows more than
+/// `MEM_CAP` bytes above the level at its start, the statement budget of hook H2 is set to zero, so
+/// the run ends at its next statement with the budget error, and the case is reported as `BUDGET`
+/// (skipped, never compared).  The library itself is untouched.
+mod mem {
+    use std::alloc::{GlobalAlloc, Layout, System};
+    use std::sync::atomic::{AtomicBool, AtomicUsize, Ordering::Relaxed};
+
+    pub static LIVE: AtomicUsize = AtomicUsize::new(0);
+    pub static LIMIT: AtomicUsize = AtomicUsize::new(usize::MAX);
+    pub static OVER: AtomicBool = AtomicBool::new(false);
+    pub const MEM_CAP: usize = 4 << 20;
+
+    pub struct Counting;
+
+    #[inline]
+    fn grew(n: usize) {
+        let now = LIVE.fetch_add(n, Relaxed) + n;
+        if now > LIMIT.load(Relaxed) && !OVER.swap(true, Relaxed) {
+            // a const-initialised thread-local Cell: no allocation, no destructor
+            let _ = aplang_lib::verif::BUDGET.try_with(|b| {
+                if b.get().is_some() {
+                    b.set(Some(0))
+                }
+            });
+        }
+    }
+
+    unsafe impl GlobalAlloc for Counting {
+        unsafe fn alloc(&self, l: Layout) -> *mut u8 {
+            let p = System.alloc(l);
+            if !p.is_null() {
+                grew(l.size());
+            }
+            p
+        }
+        unsafe fn dealloc(&self, p: *mut u8, l: Layout) {
+            System.dealloc(p, l);
+            LIVE.fetch_sub(l.size(), Relaxed);
+        }
+        unsafe fn realloc(&self, p: *mut u8, l: Layout, new_size: usize) -> *mut u8 {
+            let q = System.realloc(p, l, new_size);
+            if !q.is_null() {
+                if new_size >= l.size() {
+                    grew(new_size - l.size());
+                } else {
+                    LIVE.fetch_sub(l.size() - new_size, Relaxed);
+                }
+            }
+            q
+        }
+    }
+
+    pub fn arm() {
+        OVER.store(false, Relaxed);
+        LIMIT.store(LIVE.load(Relaxed).saturating_add(MEM_CAP), Relaxed);
+    }
+    pub fn disarm() -> bool {
+        LIMIT.store(usize::MAX, Relaxed);
+        OVER.swap(false, Relaxed)
+    }
+}
+
+#[global_allocator]
+static ALLOC: mem::Counting = mem::Counting;
+
 fn hex(bytes: &[u8]) -> String {
     let mut s = String::with_capacity(bytes.len() * 2);
     for b in bytes {
@@ -62,6 +129,18 @@ fn labels_of(report: &Report) -> String {
     out
 }
 
+/// can every label of the report be read from the source text the report itself carries?
+fn labels_readable(report: &Report) -> bool {
+    let Some(labels) = report.labels() else { return true };
+    let Some(source) = report.source_code() else { return labels.count() == 0 || true };
+    for l in labels {
+        if source.read_span(l.inner(), 0, 0).is_err() {
+            return false;
+        }
+    }
+    true
+}
+
 /// render every report the way the CLI would; only "returned without panicking" matters
 fn render_all(reports: &[Report]) -> bool {
     catch_unwind(AssertUnwindSafe(|| {
@@ -82,6 +161,9 @@ fn reports_line(tag: &str, reports: &[Report]) -> String {
     }
     if !rendered {
         out.push_str(" RENDERPANIC");
+    }
+    if !reports.iter().all(labels_readable) {
+        out.push_str(" BADSPAN");
     }
     out
 }
@@ -433,9 +515,14 @@ fn do_run(src: &str, modules: &[(String, Vec<u8>)], budget: u64, depth: u64, cas
         };
         aplang_lib::verif::set_budget(Some(budget), depth);
         aplang_lib::verif::sink_install();
+        mem::arm();
         let r = catch_unwind(AssertUnwindSafe(|| parsed.execute()));
+        let over = mem::disarm();
         let captured = aplang_lib::verif::sink_take().unwrap_or_default();
         aplang_lib::verif::set_budget(None, u64::MAX);
+        if over {
+            return "BUDGET".to_string();
+        }
         let outcome = match r {
             Err(_) => {
                 let msg = LAST_PANIC.lock().unwrap().take().unwrap_or_default();
@@ -455,10 +542,11 @@ fn do_run(src: &str, modules: &[(String, Vec<u8>)], budget: u64, depth: u64, cas
                         }
                     }
                     format!(
-                        "RT:{}{}{}",
+                        "RT:{}{}{}{}",
                         message_code(&message),
                         spans,
-                        if rendered { "" } else { ":RENDERPANIC" }
+                        if rendered { "" } else { ":RENDERPANIC" },
+                        if labels_readable(&report) { "" } else { ":BADSPAN" }
                     )
                 }
             }
